@@ -573,3 +573,25 @@ func verifC09Rank(rx, ry, rz int) {}
 //@   ensures len(keys) > 0 && len(h.Levels) > 0 ==> topKids(h.Top, len(keys))
 //@   ensures len(keys) > 0 && len(h.Levels) > 0 ==> topChain(h.Top)
 //@   ensures len(keys) > 0 && len(h.Levels) > 0 ==> topEnds(h.Top, len(keys))
+
+// ---------------------------------------------------------------------------
+// Projection entry points as seen by callers (C14).  Trusted: populateRow runs
+// the projection closures, which are outside the subset (C08's bounded check
+// covers them); what callers rely on is only the shape of the result.
+
+//@ func (p *Projection) Project(r *benchfmt.Result) (k Key)
+//@   trusted
+//@   opt allocates
+//@   requires p != nil && r != nil
+//@   modifies heap(Projection), heap(Field), heap(keyNode), heap(*keyNode), heap(*Field), heap(string), heap(map[string]int), heap(map[string]string), heap(map[uint64][]*keyNode), heap(benchfmt.Result), heap(benchfmt.Config), heap(map[string]int)
+//@   ensures k.k != nil && k.k.proj == p
+//@   ensures r.Values === old(r.Values)
+
+//@ func (p *Projection) ProjectValues(r *benchfmt.Result) (ks []Key)
+//@   trusted
+//@   opt allocates
+//@   requires p != nil && r != nil
+//@   modifies heap(Projection), heap(Field), heap(keyNode), heap(*keyNode), heap(*Field), heap(string), heap(map[string]int), heap(map[string]string), heap(map[uint64][]*keyNode), heap(benchfmt.Result), heap(benchfmt.Config)
+//@   ensures len(ks) == len(r.Values) && (ks == nil || fresh(ks))
+//@   ensures forall i int :: 0 <= i < len(ks) ==> ks[i].k != nil && ks[i].k.proj == p
+//@   ensures len(r.Values) == old(len(r.Values)) && r.Values === old(r.Values)
